@@ -128,10 +128,10 @@ LAYOUT_LISTS = {
 }
 LAYOUT_LIST_ORDER = ["single", "unsorted", "repeated", "ints", "empty"]
 FORMS = [
-    "dict", "dict_df", "dict_tuple", "dict_array", "dict_scalar", "dict_scalar_df",
+    "dict", "dict_df", "dict_array", "dict_scalar", "dict_scalar_df",
     "mi", "mi_interleaved", "mi_nodf", "mi_swapped", "mi_3level",
 ]
-FORMS_THOROUGH = FORMS + ["dict_array_df", "mi_interleaved_nodf"]
+FORMS_THOROUGH = FORMS + ["dict_tuple", "dict_array_df", "mi_interleaved_nodf"]
 
 
 def seed_alphabets(seed):
